@@ -9,6 +9,11 @@ import numpoly
 from . import clean
 from ..baseclass import ndpoly
 
+NATIVE_DTYPES = tuple(
+    numpy.dtype(dtype) for dtype in ("bool", "uint32", "int64", "float64", "complex128")
+)
+"""Coefficient types `numpoly.cfunctions` has a writer for."""
+
 
 def polynomial_from_attributes(
     exponents: numpy.typing.ArrayLike,
@@ -92,7 +97,18 @@ def polynomial_from_attributes(
     )
 
     if coefficients:
-        numpoly.cfrom_attributes(coefficients, poly.values.ravel())
+        if poly.dtype in NATIVE_DTYPES:
+            # The C routine writes raw bytes and selects their width from the
+            # dtype of what it is given: hand it fresh (writable, contiguous)
+            # arrays that already have the dtype of the polynomial.
+            coefficients = [
+                numpy.array(coefficient, dtype=poly.dtype, order="C")
+                for coefficient in coefficients
+            ]
+            numpoly.cfrom_attributes(coefficients, poly.values.ravel())
+        else:
+            for key, values in zip(poly.keys, coefficients):
+                poly.values[key] = values
 
     # for key, values in zip(poly.keys, coefficients):
     #    poly.values[key] = values
